@@ -199,16 +199,16 @@ class GMRFCovariate(GMRF):
     def _call(self, *args, **kwargs) -> torch.Tensor:
         dim = self.field.shape[-1]
         precision = self.precision.tensor
-        covariates = (
-            self.covariates.tensor
-            if self.covariates.shape[:-2] == self.beta.shape[:-1]
-            else self.covariates.tensor.expand(self.beta.shape[:-1], (-1,))
-        )
         precision_matrix = self.precision_matrix()
-        field_z_beta = self.field.tensor - (covariates @ self.beta.tensor)
+        # covariates: [...,N,P], beta: [...,P], field: [...,N]
+        z_beta = (self.covariates.tensor @ self.beta.tensor.unsqueeze(-1)).squeeze(-1)
+        field_z_beta = (self.field.tensor - z_beta).unsqueeze(-1)
+        quadratic_form = (
+            field_z_beta.transpose(-1, -2) @ precision_matrix @ field_z_beta
+        ).squeeze(-1)
         return (
             0.5 * (dim - 1) * precision.log()
-            - 0.5 * field_z_beta.t() @ precision_matrix @ field_z_beta
+            - 0.5 * quadratic_form
             - (dim - 1) / 2.0 * 1.8378770664093453
         )
 
